@@ -66,7 +66,7 @@ def pki():
     ee_cert = ee('src-sign', ee_key, SRC_NODE, 12)
     other_cert = ee('other-sign', other_key, 'dtn://someone-else/', 13)
 
-    def variant(name, key, serial, san, issuer_key=ca_key, issuer_name=ca_name):
+    def variant(name, key, serial, san, issuer_key=ca_key, issuer_name=ca_name, start=start, end=end):
         builder = (x509.CertificateBuilder().subject_name(x509.Name([x509.NameAttribute(x509.oid.NameOID.COMMON_NAME, name)]))
                    .issuer_name(issuer_name).public_key(key.public_key()).serial_number(serial).not_valid_before(start).not_valid_after(end)
                    .add_extension(x509.BasicConstraints(ca=False, path_length=None), critical=True)
@@ -93,6 +93,9 @@ def pki():
         vkey = fresh_key()
         san = [x509.OtherName(x509.oid.ObjectIdentifier(cb.OID_BUNDLE_EID), bytes([0x16, len(eid)]) + eid.encode('ascii'))]
         variants[vname] = (variant('v-' + vname, vkey, 40 + len(variants), san), vkey)
+    # a certificate whose validity begins and ends in the middle of a day
+    vkey = fresh_key()
+    variants['midday'] = (variant('v-midday', vkey, 60, eid_san, start=datetime.datetime(2021, 3, 10, 12, 0), end=datetime.datetime(2035, 6, 15, 12, 0)), vkey)
     variants['good'] = (ee_cert, ee_key)
     variants['othernode'] = (other_cert, other_key)
     paths = {}
